@@ -39,6 +39,24 @@ Theorem C09_start_outcome : forall st,
   /\ (first_failing st (rev (pubdecs st)) = None -> first_failing st (subdecs st) = None ->
       handlers (step st OStart) = map (start_one st) (handlers st)).
 Proof. exact start_outcome. Qed.
+(** a RunHandlers attempt that fails leaves NOTHING behind (repaired code): no publisher decorator stays
+    applied, so after any number of failed attempts a handler is decorated once, with the lists of the
+    moment it is started *)
+Theorem C09_retry_leaves_no_residue : forall ops, residue (exec rinit ops) = [].
+Proof. exact residue_empty_all. Qed.
+Theorem C09_retry_decorates_once : forall ops hs, hs_started hs = None ->
+  start_one (exec rinit ops) hs =
+  HS (hs_cfg hs) (Some (ST (mws (exec rinit ops)) (pubdecs (exec rinit ops)) (subdecs (exec rinit ops)))).
+Proof. exact start_one_no_residue. Qed.
+(** PINNED behaviour (before the fix): an attempt that failed in a subscriber decorator left the publisher
+    decorated; after the retry publisher decorator 50 acts twice on one outgoing batch *)
+Theorem C09_retry_pinned_refuted :
+  let d := DL 1 22 cx0 (0%N, false) (Ret [1%N]) PubAccept in
+  map (fun p => c09_proj (snd p)) (deliver (exec_pinned rinit pinned_witness) d)
+    = [[OSub 62 (CX 12 8 7 22 33); OFn; OPubDec 50; OPubDec 50; OPub]]
+  /\ map (fun p => c09_proj (snd p)) (deliver (exec rinit pinned_witness) d)
+    = [[OSub 62 (CX 12 8 7 22 33); OFn; OPubDec 50; OPub]].
+Proof. exact retry_pinned_refuted. Qed.
 Theorem C09_names_unique : forall ops, NoDup (names (exec rinit ops)).
 Proof. exact names_nodup_all. Qed.
 
@@ -101,6 +119,9 @@ Print Assumptions C09_registrations_never_removed.
 Print Assumptions C09_started_frozen.
 Print Assumptions C09_start_outcome.
 Print Assumptions C09_names_unique.
+Print Assumptions C09_retry_leaves_no_residue.
+Print Assumptions C09_retry_decorates_once.
+Print Assumptions C09_retry_pinned_refuted.
 
 (** non-vacuity: router-level 1, handler A (name 10), A's own 2, handler B (name 11), router-level 3
     (after both AddHandler calls: applies to both), B's own 4, decorators, Run, then registrations
@@ -126,8 +147,8 @@ Example C09_witness_late_handler :
 Proof. reflexivity. Qed.
 
 (** a handler added to the running router; publisher decorator 53's constructor fails once, subscriber
-    decorator 62's fails once: the first two RunHandlers start nobody (the second leaves the publisher
-    decorators applied on the handler's publisher: they act twice afterwards, as coded), the third starts it *)
+    decorator 62's fails once: the first two RunHandlers start nobody, the third starts it, and every
+    decorator acts ONCE (repaired: the undecorated publisher is put back when the subscriber cannot be decorated) *)
 Definition exRetry := exOps ++ [OAddPubDec 53 1; OAddSubDec 62 1; OAddHandler (HC 12 1 7 22 (PReal 1 8) 33 3)].
 Example C09_witness_failing_constructors :
   map (fun ops => map (fun p => c09_proj (snd p)) (deliver (exec rinit ops) (DL 1 22 cx0 (0%N, false) (Ret [1%N]) PubAccept)))
@@ -135,7 +156,7 @@ Example C09_witness_failing_constructors :
   [[]; [];
    [[OSub 60 (CX 12 8 7 22 33); OSub 61 (CX 12 8 7 22 33); OSub 62 (CX 12 8 7 22 33);
      OEnter 1; OEnter 3; OEnter 5; OFn; OExit 5; OExit 3; OExit 1;
-     OPubDec 50; OPubDec 51; OPubDec 52; OPubDec 53; OPubDec 50; OPubDec 51; OPubDec 52; OPubDec 53; OPub]]].
+     OPubDec 50; OPubDec 51; OPubDec 52; OPubDec 53; OPub]]].
 Proof. reflexivity. Qed.
 (** Stop of A, then a new handler under A's name: it inherits A's middleware 2 and the late 6 *)
 Example C09_witness_stop_and_readd :
